@@ -7,7 +7,7 @@ import ast
 from sa.cfg import CFG
 from sa.enumdom import FINISHED, TRIAL_STATES, explore
 from sa.loader import dotted, norm, own_nodes
-from sa.util import self_attr, where
+from sa.util import class_lock_fields, lock_section_of, parent_map, self_attr, where
 
 INMEM = "optuna.storages._in_memory.InMemoryStorage"
 RDB = "optuna.storages._rdb.storage.RDBStorage"
@@ -108,3 +108,38 @@ def cas_rule(ctx, rule, label="cas"):
                     bad.append(cur)
     ctx.check(not bad and bool(cur_texts), rule, f.short, f"{label}:helper-rejects-finished",
               message=f"_trial_exists_and_updatable returns True for a finished trial ({bad})", how="True unreachable for finished stored states")
+
+
+
+def cas_atomic_rule(ctx, rule, label="cas"):
+    """In-memory backend: the read of the stored state that the guard tests, the guard itself and the
+    publication of the new state all happen inside ONE `with self._lock` section. A guard evaluated
+    before the lock is taken (or in an earlier section) is a check-then-act race: two threads both see
+    WAITING and both publish RUNNING."""
+    p = ctx.program
+    cls = p.cls(INMEM)
+    f = cls.methods.get("set_trial_state_values")
+    ctx.require(f is not None, f"{rule}: InMemoryStorage.set_trial_state_values vanished")
+    locks = class_lock_fields(cls)
+    ctx.require(locks, f"{rule}: InMemoryStorage has no lock field")
+    pm = parent_map(f.node)
+    guards, pubs = [], []
+    for x in own_nodes(f.node):
+        if isinstance(x, ast.Attribute) and x.attr == "state" and isinstance(x.ctx, ast.Load):
+            b = norm(x.value)
+            if b not in ("self", "template_trial") and not b.endswith("TrialState"):
+                guards.append(x)
+        if isinstance(x, ast.Call) and self_attr(x.func) in ("_set_trial",):
+            pubs.append(x)
+        if isinstance(x, ast.Assign) and any(isinstance(t, ast.Subscript) and "trials" in norm(t.value) for t in x.targets):
+            pubs.append(x)
+    ctx.require(guards and pubs, f"{rule}: stored-state reads / publication not found in InMemoryStorage.set_trial_state_values")
+    secs = {id(lock_section_of(x, pm, locks)): lock_section_of(x, pm, locks) for x in guards + pubs}
+    unlocked = [x for x in guards + pubs if lock_section_of(x, pm, locks) is None]
+    ok = not unlocked and len(secs) == 1
+    what = "outside the lock" if unlocked else f"spread over {len(secs)} critical sections"
+    ctx.check(ok, rule, f.short, f"{label}:guard-and-publication-in-one-critical-section",
+              message=f"InMemoryStorage.set_trial_state_values: the stored-state test and the publication of the new state are {what} "
+                      f"(first at line {getattr((unlocked or guards)[0], 'lineno', 0)}): two threads can both see WAITING and both set RUNNING - one queued trial "
+                      f"is handed to two workers",
+              how="every read of the stored trial's state and every publication (_set_trial) lies in the same `with self._lock` statement")
